@@ -148,7 +148,7 @@ def judge_pkg(ctx, c, res, pre, cols, lids, tag):
 def run_and_judge(ctx, cases, P, tag, timeout=600, known_hang=False):
     lines = [c["line"] for c in cases]
     impl, crashed = fw.run_impl_lines(ctx, "drv_comm", lines, nprocs=P, name="comm_%s_%d" % (tag, P), timeout=timeout)
-    model_lines = []
+    model_lines = []; tap_lines = []
     for c in cases:
         ctx.evaluations += 1
         ctx.count("P=%d" % P); ctx.count("mode=%d" % c["mode"])
@@ -166,6 +166,17 @@ def run_and_judge(ctx, cases, P, tag, timeout=600, known_hang=False):
         judge_pkg(ctx, c, res, "", c["cols"], c["lids"], tag)
         if c["derive"]:
             judge_pkg(ctx, c, res, "D", c["dcols"], c["dlids"], tag)
+        if c["mode"] in (1, 2):
+            for pre, cols, lids in (("", c["cols"], c["lids"]),) + ((("D", c["dcols"], c["dlids"]),) if c["derive"] else ()):
+                ranks = split_ranks(res[pre + "PKG"])
+                toks = [c["cid"] + pre, "tapchk", P, 1 if c["mode"] == 1 else 0]
+                for cs in cols: toks += [len(cs)] + cs
+                for l in lids: toks += [len(l)] + l
+                toks += [c["N"] + 1]
+                for rk in ranks:
+                    assert rk[0] == "tap"
+                    toks += rk[1:]
+                tap_lines.append((c, pre, " ".join(str(x) for x in toks), res))
         if c["mode"] == 0:
             for pre, cols, lids in (("", c["cols"], c["lids"]),) + ((("D", c["dcols"], c["dlids"]),) if c["derive"] else ()):
                 ranks = split_ranks(res[pre + "PKG"])
@@ -193,6 +204,24 @@ def run_and_judge(ctx, cases, P, tag, timeout=600, known_hang=False):
                     ctx.signal("K", "%s:build" % tag, "construction model differs from the implementation's package", case=c["line"],
                                extra=dict(model_case=line))
             for key in ("FI", "FBI", "RSI", "RM", "RL"):
+                a = split_ranks(res.get(pre + key, [])); b = split_ranks(mr.get(key, []))
+                if a != b:
+                    ctx.signal("K", "%s:%s" % (tag, key), "model %s vs implementation %s" % (b, a), case=c["line"],
+                               extra=dict(model_case=line))
+                    break
+
+    if tap_lines:
+        cf = fw.write_cases(ctx, "tapchk_%s_%d.cases" % (tag, P), [m[2] for m in tap_lines])
+        rc, mout, _, err = fw.run_model(ctx, cf)
+        if rc != 0: ctx.signal("K", "modeldriver", "model driver failed: %s" % err[-300:])
+        for c, pre, line, res in tap_lines:
+            mr = {k: v for k, v in mout.get(c["cid"] + pre, [])}
+            ctx.compared += 1
+            chk = mr.get("CHK")
+            if not chk or "0" in chk[1::2]:
+                ctx.signal("K", "%s:checker" % tag, "verified checker rejects the implementation's node-aware package: %s %s" % (chk, mout.get(c["cid"] + pre)),
+                           case=c["line"], extra=dict(model_case=line))
+            for key in ("FI", "FBI"):
                 a = split_ranks(res.get(pre + key, [])); b = split_ranks(mr.get(key, []))
                 if a != b:
                     ctx.signal("K", "%s:%s" % (tag, key), "model %s vs implementation %s" % (b, a), case=c["line"],
